@@ -28,7 +28,10 @@
 //!                step released it; that `run` step waits for it): prints where it is parked, `B` if it is still blocked
 //!   run          step the background run to its next yield point (or to the release of the lock)
 //!   obs          print snapshot / counters: pattern, item count, matches, matched item data, active_injectors, notify
-//!                count, unchecked reads of uninitialised entries, g = Snapshot::get_item(i).data for i in 0..8 (`-` = None)
+//!                count, unchecked reads of uninitialised entries, g = Snapshot::get_item(i).data for i in 0..8 (`-` = None),
+//!                k = number of matcher columns of the items handed out (matched items, get_item): 2, or the first other value.
+//!                Every fill callback (push and extend) checks the number of columns it is handed: a thread that saw
+//!                N != 2 gets the suffix `!cols=N` on its result (R<idx>!cols=N / E<idx>!cols=N; never produced by the model)
 //! `hn nucleo-table` prints the score table (pattern pool x text pool) the model needs.
 use crate::sched::{self, Foreign, St};
 use nucleo::pattern::{CaseMatching, Normalization};
@@ -95,7 +98,24 @@ pub const TEXTS: [(&str, &str); 24] = [
     ("cba/abc", "p"),
 ];
 
+thread_local! {
+    /// a number of matcher columns other than NCOLS handed to a fill callback on this thread (the first one seen)
+    static COLS_BAD: std::cell::Cell<Option<usize>> = std::cell::Cell::new(None);
+}
+/// suffix for the result of a push / extend thread: `!cols=N` iff one of its fill callbacks was handed N != NCOLS matcher
+/// columns (never produced by the model: every stream of the Nucleo has the configured number of columns)
+fn cols_end() -> String {
+    COLS_BAD.with(|c| c.take()).map_or(String::new(), |n| format!("!cols={}", n))
+}
+
 fn fill(v: &u64, cols: &mut [nucleo::Utf32String]) {
+    if cols.len() != NCOLS {
+        COLS_BAD.with(|c| {
+            if c.get().is_none() {
+                c.set(Some(cols.len()))
+            }
+        });
+    }
     let (c0, c1) = TEXTS[(*v as usize) % TEXTS.len()];
     cols[0] = c0.into();
     cols[1] = c1.into();
@@ -256,7 +276,7 @@ pub fn run(file: &str) {
                                 sched::spawn(IGNORE_PUSH.to_vec(), move || {
                                     inj_begin(&inj, 1);
                                     let idx = inj.push(g, fill);
-                                    format!("R{}{}", idx, inj_end())
+                                    format!("R{}{}{}", idx, cols_end(), inj_end())
                                 }),
                             );
                             obs.push("-".into());
@@ -288,7 +308,7 @@ pub fn run(file: &str) {
                                     let values: Vec<u64> = (0..n).map(|k| g0 + k * step).collect();
                                     inj_begin(&inj, n);
                                     inj.extend(values.into_iter(), fill);
-                                    let sfx = inj_end();
+                                    let sfx = format!("{}{}", cols_end(), inj_end());
                                     format!("E{}{}", sched::reserved().map_or("?".to_string(), |x| x.to_string()), sfx)
                                 }),
                             );
@@ -468,6 +488,14 @@ pub fn run(file: &str) {
                         let snap = nucleo.snapshot();
                         let ms: Vec<String> = snap.matches().iter().map(|m| format!("{}:{}", m.score, m.idx)).collect();
                         let mut data = Vec::new();
+                        // k: the number of matcher columns of the items the snapshot hands out (matched items and
+                        // get_item(i), i < GET_ITEMS): NCOLS, or the first other value seen
+                        let mut kcols = NCOLS;
+                        let mut see_cols = |n: usize| {
+                            if n != NCOLS && kcols == NCOLS {
+                                kcols = n
+                            }
+                        };
                         for n in 0..snap.matched_item_count() {
                             // a placeholder (idx == u32::MAX) left in the matches cannot be read (boxcar panics on that index)
                             if snap.matches()[n as usize].idx == u32::MAX {
@@ -476,7 +504,10 @@ pub fn run(file: &str) {
                             }
                             // reads the item through the unchecked accessor, as a UI would
                             match snap.get_matched_item(n) {
-                                Some(it) => data.push(format!("{}", it.data)),
+                                Some(it) => {
+                                    see_cols(it.matcher_columns.len());
+                                    data.push(format!("{}", it.data))
+                                }
                                 None => data.push("NONE".to_string()),
                             }
                         }
@@ -487,9 +518,16 @@ pub fn run(file: &str) {
                         let (p0, p1) = (ptxt(0), ptxt(1));
                         let pid = PATTERNS.iter().position(|t| t.0 == p0 && t.1 == p1).map_or(-1, |x| x as i64);
                         // index based access: what Snapshot::get_item hands out for the first indices of the snapshot's stream
-                        let gi: Vec<String> = (0..GET_ITEMS).map(|i| snap.get_item(i).map_or("-".to_string(), |it| format!("{}", it.data))).collect();
+                        let gi: Vec<String> = (0..GET_ITEMS)
+                            .map(|i| {
+                                snap.get_item(i).map_or("-".to_string(), |it| {
+                                    see_cols(it.matcher_columns.len());
+                                    format!("{}", it.data)
+                                })
+                            })
+                            .collect();
                         obs.push(format!(
-                            "O p={} c={} m={} d={} inj={} n={} u={} g={}",
+                            "O p={} c={} m={} d={} inj={} n={} u={} g={} k={}",
                             pid,
                             snap.item_count(),
                             if ms.is_empty() { "-".to_string() } else { ms.join(",") },
@@ -497,7 +535,8 @@ pub fn run(file: &str) {
                             nucleo.active_injectors(),
                             notifies.load(Ordering::SeqCst),
                             nucleo::verif::take_uninit_reads(),
-                            gi.join(",")
+                            gi.join(","),
+                            kcols
                         ));
                     }
                 }
